@@ -256,6 +256,11 @@ func propC04(c *Ctx) {
 	rpe := c.Rule("pool-escape", "no codec function returns bytes derived from an object it hands back to a sync.Pool: encoded data must own its storage", 1)
 	rulePoolEscape(c, rpe, l.RepoFuncs(func(pp string) bool { return pp == encPath }))
 
+	rgi := c.Rule("gob-iface", "the gob fallback writes interface values (pointer to interface), matching the reader that decodes into an interface", 2)
+	ruleGobIface(c, rgi)
+	rcf := c.Rule("copy-all-fields", "a decoder that publishes a Bytecode field by field copies every field", 0)
+	ruleCopyAllFields(c, rcf)
+
 	// ---- rebind ----------------------------------------------------------------------------
 	rr := c.Rule("rebind", "when a decoded module map is re-bound to the supplied builtin module, every item other than the module-name key reaches the assignment that replaces it (or an error return): no class of items is skipped", 1)
 	fix := l.Method(encPath, "Bytecode", "fixObjects")
